@@ -185,7 +185,7 @@ func TestVerif_C20(t *testing.T) {
 			case 3:
 				d = c20Interval + time.Duration(rng.Intn(3))
 			case 4:
-				d = time.Duration(rng.Intn(int(2 * c20Interval)))
+				d = time.Duration(rng.U64() % uint64(2*c20Interval))
 			default:
 				d = time.Second / 9
 			}
